@@ -133,6 +133,11 @@ func genSize(t *tape.Tape) int {
 }
 
 func genOffset(t *tape.Tape, size int, cur int64) int64 {
+	if t.Chance(1, 40) {
+		// "SeekPos(p) for any p >= 0": also offsets of 4 GiB and more
+		k := int64(1 + t.Draw(3))
+		return k<<32 + int64(t.Range(0, 2200)) - 1100 + cur%2048
+	}
 	switch t.Weighted(3, 4, 4, 2, 3, 2) {
 	case 0:
 		return int64(t.Range(0, size))
@@ -164,6 +169,10 @@ func genOp(t *tape.Tape, size int, cur int64) op {
 	case opSeek:
 		o.arg = genOffset(t, size, cur)
 	case opDiscard:
+		if t.Chance(1, 60) {
+			o.arg = int64(1+t.Draw(2))<<32 + int64(t.Range(0, 10))
+			break
+		}
 		switch t.Weighted(4, 2, 2) {
 		case 0:
 			o.arg = int64(t.Range(0, 40))
